@@ -128,7 +128,7 @@ pub fn one_case(kind: &str, si: &gen::SchemaInfo, input: &J, out: &mut Out) {
     }
 }
 
-fn merge_sdl() -> String { format!("{}\ninput In {{ a: Int  b: Int }}\ninterface Pet {{ name: String  nick: String  owner: Human }}\ntype Dog implements Pet {{ name: String  nick: String  barks: Boolean  owner: Human  n: Int  l: [Int]  m: Int! }}\ntype Cat implements Pet {{ name: String  nick: String  meows: Boolean  owner: Human  n: String  l: [Int!]  m: Int }}\nunion CatOrDog = Cat | Dog\ntype Human {{ name: String  nick: String  f(x: Int, y: [Int], o: In): Int  list: [Int]  nn: Int!  self: Human  pet: Pet  dog: Dog  cd: CatOrDog }}\ntype Query {{ human: Human  pet: Pet  dog: Dog  cat: Cat  cd: CatOrDog }}\n", schemas::PRELUDE) }
+fn merge_sdl() -> String { format!("{}\ninput In {{ a: Int  b: Int }}\ninterface Pet {{ name: String  nick: String  owner: Human }}\ntype Dog implements Pet {{ name: String  nick: String  barks: Boolean  owner: Human  n: Int  l: [Int]  m: Int!  boss: Human!  pack: [Human!] }}\ntype Cat implements Pet {{ name: String  nick: String  meows: Boolean  owner: Human  n: String  l: [Int!]  m: Int  boss: Human  pack: [Human] }}\nunion CatOrDog = Cat | Dog\ntype Human {{ name: String  nick: String  f(x: Int, y: [Int], o: In): Int  list: [Int]  nn: Int!  self: Human  pet: Pet  dog: Dog  cd: CatOrDog }}\ntype Query {{ human: Human  pet: Pet  dog: Dog  cat: Cat  cd: CatOrDog }}\n", schemas::PRELUDE) }
 
 fn frags_sdl() -> String { format!("{}\nscalar Custom\nenum E {{ X }}\ninput In {{ x: Int }}\ninterface I {{ a: Int  t: T }}\ninterface J implements I {{ a: Int  t: T }}\ninterface K {{ a: Int }}\ninterface L {{ a: Int }}\ninterface M implements I {{ a: Int  t: T }}\ntype T implements I & J & K {{ a: Int  t: T  i: I  j: J  u: U  k: K }}\ntype V {{ a: Int }}\ntype W implements I {{ a: Int  t: T }}\ntype X implements K & L {{ a: Int }}\nunion U = T | V\nunion U2 = V | W\ntype Query {{ a: Int  t: T  i: I  j: J  u: U  u2: U2  v: V  w: W  k: K  l: L  x: X  m: M }}\n", schemas::PRELUDE) }
 
@@ -146,6 +146,22 @@ pub fn generate(kind: &str, thorough: bool, seed: u64, corpus: &str, out: &mut O
                 let si = gen::SchemaInfo::new(&format!("random{}", i), &gen::random_schema(&mut rng));
                 out.schema(&si);
                 for t in random_docs(&si, &mut rng, 40, 4) { trace_case(&si, &t, out); }
+            }
+            // object and list literals written directly at positions whose expected type wraps an input object in 0..3 list levels
+            // (input coercion of a single value to a list): the expected types of the members must not depend on the wrappers
+            {
+                let si = gen::SchemaInfo::new("wrapped-inputs", &format!("{}{}", schemas::PRELUDE,
+                    "input Point { x: Int!  n: Point  l: [Point!]  ll: [[Point]] }\nscalar JSON\ndirective @at(p: [[Point!]], s: Point) on FIELD\ntype Query { grid(s: Point, r: [Point!]!, p: [[Point!]], q: [[[Point]]]!, j: JSON, jl: [JSON]): Int }"));
+                out.schema(&si);
+                let lits = ["{x: 1}", "{x: null}", "{x: $v}", "[{x: 1}]", "[[{x: 1, n: {x: null}}]]", "{x: 1, l: {x: 2}}", "{x: 1, l: [{x: $v}]}", "{x: 1, ll: {x: null}}", "{x: 1, ll: [{x: 2}, [{x: 3}]]}",
+                            "[[[{x: 1}]]]", "[{x: 1}, [{x: 2}]]", "null", "$v", "[1, {x: 1}]", "{x: 1, n: {x: 1, n: {x: null}}}", "{zz: {x: 1}}"];
+                for arg in ["s", "r", "p", "q", "j", "jl"] { for lit in lits.iter() {
+                    trace_case(&si, &format!("query ($v: Int) {{ grid({}: {}) }}", arg, lit), out);
+                } }
+                for lit in lits.iter() {
+                    trace_case(&si, &format!("query ($v: Int) {{ grid @at(p: {}, s: {}) }}", lit, lit), out);
+                    trace_case(&si, &format!("query ($v: Int, $w: [[Point!]] = {}) {{ grid(p: $w) }}", lit.replace("$v", "1")), out);
+                }
             }
         }
         "svisit" => {
@@ -333,8 +349,8 @@ pub fn generate(kind: &str, thorough: bool, seed: u64, corpus: &str, out: &mut O
                 if si.name == "merge-abstract" {
                     // same-key fields under mutually exclusive parents (mostly valid): wrapping, inlining and permuting must not change the verdict
                     docs.clear();
-                    let dv = ["k: name", "k: nick", "k: n", "k: barks", "k: owner { name }", "k: owner { name: nick }", "k: owner { k: self { name } }"];
-                    let cv = ["k: name", "k: nick", "k: n", "k: meows", "k: owner { name }", "k: owner { name: nick }", "k: owner { name: nn }", "k: owner { k: self { name: nick } }"];
+                    let dv = ["k: boss { name }", "k: pack { name }", "k: m", "k: name", "k: nick", "k: n", "k: barks", "k: owner { name }", "k: owner { name: nick }", "k: owner { k: self { name } }"];
+                    let cv = ["k: boss { name }", "k: pack { name }", "k: m", "k: name", "k: nick", "k: n", "k: meows", "k: owner { name }", "k: owner { name: nick }", "k: owner { name: nn }", "k: owner { k: self { name: nick } }"];
                     let mut n = 0usize;
                     for a in dv.iter() { for b in cv.iter() {
                         n += 1;
@@ -428,7 +444,7 @@ pub fn generate(kind: &str, thorough: bool, seed: u64, corpus: &str, out: &mut O
             crate::valcases::FULL_MODE.store(0, std::sync::atomic::Ordering::Relaxed);
             let tmp = tmpdir();
             // (c) one violation at a time, at two nesting depths, over a small schema
-            let sdl = format!("{}\ninput In {{ req: Int!  opt: String }}\nenum E {{ X Y }}\ninterface P {{ a: Int }}\ntype T implements P {{ a: Int  b: String  t: T  g(i: Int, l: [Int!], o: In, r: Int!): Int }}\ntype V {{ v: Int }}\nunion U = T | V\ntype Query {{ a: Int  t: T  f(x: Int, r: Int!): Int  p: P  u: U }}\ntype Mutation {{ m: Int }}\ntype Subscription {{ s1: Int  s2: Int }}\ndirective @onField on FIELD\ndirective @onQuery on QUERY\n", schemas::PRELUDE);
+            let sdl = format!("{}\ninput In {{ req: Int!  opt: String }}\nenum E {{ X Y }}\ninterface P {{ a: Int }}\ntype T implements P {{ a: Int  b: String  t: T  g(i: Int, l: [Int!], o: In, r: Int!): Int }}\ntype V {{ v: Int }}\nunion U = T | V\ntype Query {{ a: Int  t: T  f(x: Int, r: Int!): Int  p: P  u: U }}\ntype Mutation {{ m: Int }}\ninterface Feed {{ s1: Int }}\nunion SubU = Subscription | V\ntype Subscription implements Feed {{ s1: Int  s2: Int }}\ndirective @onField on FIELD\ndirective @onQuery on QUERY\n", schemas::PRELUDE);
             let si1 = gen::SchemaInfo::new("single-violation", &sdl);
             out.schema(&si1);
             let singles: Vec<(&str, &str)> = vec![
@@ -462,6 +478,8 @@ pub fn generate(kind: &str, thorough: bool, seed: u64, corpus: &str, out: &mut O
                 ("VariablesInAllowedPosition", "query ($v: Int) { t { ...F } k: f(x: $v, r: 1) } fragment F on T { g(r: $v) }"),
                 ("ValuesOfCorrectType", "{ f(x: \"s\", r: 1) }"), ("ValuesOfCorrectType", "{ t { g(o: {opt: \"x\"}, r: 1) } }"), ("ValuesOfCorrectType", "{ t { t { g(l: [1, null], r: 1) } } }"), ("ValuesOfCorrectType", "{ f(r: null) }"),
                 ("VariablesAreInputTypes", "query ($v: T) { a }"),
+                ("SingleFieldSubscriptions", "subscription S { s2 ... on Feed { s1 } }"), ("SingleFieldSubscriptions", "subscription S { ...F } fragment F on SubU { ... on Subscription { s1 s2 } }"),
+                ("SingleFieldSubscriptions", "subscription { ... on Feed { s1 ... on Subscription { k: s2 } } }"),
                 // only the SECOND / THIRD operation violates, through a fragment an earlier operation has walked already
                 ("VariablesInAllowedPosition", "query A($v: Int!) { t { ...F } } query B($v: Int) { t { ...F } } fragment F on T { g(r: $v) }"),
                 ("VariablesInAllowedPosition", "query A($v: Int!) { ...F } query B($v: Int!) { ...F } query C($v: Int) { t { ...G } } fragment F on Query { t { ...G } } fragment G on T { g(r: $v) }"),
@@ -567,6 +585,14 @@ pub fn generate(kind: &str, thorough: bool, seed: u64, corpus: &str, out: &mut O
                 t.push_str(&format!(" fragment L{}a on T {{ a }} fragment L{}b on T {{ b }}", k, k));
                 crate::valcases::termination_case(&si, &t, &tmp, "diamond-ladder", out);
             }
+            // the same ladder below a subscription root: single-field-subscriptions expands the fragments with `collect_fields`, whose
+            // visited list must keep that linear too
+            for k in (if thorough { vec![8usize, 16, 22, 26, 30] } else { vec![10usize, 18, 26] }) {
+                let mut t = String::from("subscription S { ...L0a ...L0b }");
+                for i in 0..k { t.push_str(&format!(" fragment L{}a on Subscription {{ ...L{}a ...L{}b }} fragment L{}b on Subscription {{ ...L{}a ...L{}b }}", i, i + 1, i + 1, i, i + 1, i + 1)); }
+                t.push_str(&format!(" fragment L{}a on Subscription {{ a }} fragment L{}b on Subscription {{ a }}", k, k));
+                crate::valcases::termination_case(&si, &t, &tmp, "diamond-ladder-subscription", out);
+            }
             // every way each rule can be violated, as enumerated for C04..C11 (one document in 12; thorough: in 3), all plans
             crate::valcases::FULL_TERMINATION.store(true, std::sync::atomic::Ordering::Relaxed);
             crate::valcases::FULL_MODE.store(if thorough { 3 } else { 12 }, std::sync::atomic::Ordering::Relaxed);
@@ -645,8 +671,8 @@ pub fn generate(kind: &str, thorough: bool, seed: u64, corpus: &str, out: &mut O
                 }
             } }
             // ---- pairs under abstract parents: fields of Dog vs Cat (mutually exclusive parents: only the shapes matter)
-            let dv = ["k: name", "k: nick", "k: n", "k: l", "k: m", "k: barks", "k: owner { name }", "k: owner { name: nn }", "k: owner { name: list }", "k: owner { k: self { name } }", "k: owner { name: f(x: 1) }"];
-            let cv = ["k: name", "k: nick", "k: n", "k: l", "k: m", "k: meows", "k: owner { name }", "k: owner { name: nn }", "k: owner { name: f }", "k: owner { k: self { name: nn } }", "k: owner { name: nick }", "k: owner { name: f(x: 2) }"];
+            let dv = ["k: boss { name }", "k: pack { name }", "k: name", "k: nick", "k: n", "k: l", "k: m", "k: barks", "k: owner { name }", "k: owner { name: nn }", "k: owner { name: list }", "k: owner { k: self { name } }", "k: owner { name: f(x: 1) }"];
+            let cv = ["k: boss { name }", "k: pack { name }", "k: name", "k: nick", "k: n", "k: l", "k: m", "k: meows", "k: owner { name }", "k: owner { name: nn }", "k: owner { name: f }", "k: owner { k: self { name: nn } }", "k: owner { name: nick }", "k: owner { name: f(x: 2) }"];
             // the sub-selection of `owner` moved into a named fragment (exclusivity of the parents is inherited, F15-independent)
             let in_frag = |x: &str, f: &str| -> Option<(String, String)> {
                 let i = x.find("owner { ")?;
@@ -679,6 +705,27 @@ pub fn generate(kind: &str, thorough: bool, seed: u64, corpus: &str, out: &mut O
                     }
                 }
             } }
+            // ---- three fields under one key, in every order: the two that conflict need not be neighbours
+            {
+                let tv = ["k: name", "k: nn", "k: self { name }", "k: self { nick }", "k: self { name: nick }", "k: f(x: 1)", "k: self { self { name } }", "k: self { self { name: nn } }"];
+                let mut c = 0usize;
+                for a in tv.iter() { for b in tv.iter() { for cc in tv.iter() {
+                    c += 1;
+                    if a == b && b == cc { continue; }
+                    if !thorough && c % 3 != 0 { continue; }
+                    group += 1;
+                    emit(format!("{{ human {{ {} {} {} }} }}", a, b, cc), "triple", group, out);
+                    if thorough || c % 2 == 0 { emit(format!("{{ human {{ {} ...FB ... on Human {{ {} }} }} }} fragment FB on Human {{ {} }}", a, cc, b), "triple", group, out); }
+                } } }
+                for (a, b, cc) in [("... on Cat { x: name }", "... on Dog { x: name }", "... on Cat { x: nick }"), ("... on Dog { x: n }", "... on Cat { x: name }", "... on Dog { x: m }"),
+                                   ("... on Dog { x: owner { name } }", "... on Cat { x: owner { nick } }", "... on Dog { x: owner { name: nick } }")] {
+                    for perm in [[0usize, 1, 2], [0, 2, 1], [1, 0, 2], [1, 2, 0], [2, 0, 1], [2, 1, 0]] {
+                        let v = [a, b, cc];
+                        group += 1;
+                        emit(format!("{{ pet {{ {} {} {} }} }}", v[perm[0]], v[perm[1]], v[perm[2]]), "triple", group, out);
+                    }
+                }
+            }
             // ---- the recorded witnesses of F15 (a) and (b), and near misses
             for t in ["{ human { g: self { nn } g: self { ...F2 } t: self { x: name } t: self { ...F2 } } } fragment F2 on Human { ...F3 } fragment F3 on Human { x: nn }",
                       "{ human { t: self { x: name } t: self { ...F2 } } } fragment F2 on Human { ...F3 } fragment F3 on Human { x: nn }",
@@ -1041,6 +1088,18 @@ pub fn generate(kind: &str, thorough: bool, seed: u64, corpus: &str, out: &mut O
                         if thorough || p == i % docs.len() || (p == 0 && shapes[k % shapes.len()].len() <= 1) { crate::valcases::rules_case(&si, d, &rules, &tmp, out); }
                     }
                     i += 1;
+                }
+            }
+            // two literals in one document at positions of one named type: each is judged on its own, whatever was judged before
+            {
+                let small = ["1", "1.0", "1.5", "\"1\"", "\"s\"", "true", "RED", "null", "7", "7.0"];
+                for (k, t) in tys.iter().enumerate() {
+                    if shapes[k % shapes.len()].len() > 1 { continue; }
+                    for x in small.iter() { for y in small.iter() {
+                        if x == y { continue; }
+                        crate::valcases::rules_case(&si, &format!("{{ p: f(a{}: {}) q: f(a{}: {}) }}", k, x, k, y), &rules, &tmp, out);
+                        if thorough || shapes[k % shapes.len()] == "L" { crate::valcases::rules_case(&si, &format!("{{ f(l{}: [{}, {}]) }}", k, x, y), &rules, &tmp, out); }
+                    } }
                 }
             }
             // unknown owners: nothing is expected, nothing is reported
